@@ -496,6 +496,17 @@ WITNESSES = [
   ("twoway_list", [[["AddColumn", "B", "f1", {"type": "Int", "isFormula": True,
                                             "formula": "len(B.lookupRecords(A=$id))"}]],
                    [["ModifyColumn", "B", "A", {"type": "Ref:A"}]]], "type-change-of-lookup-key-column"),
+  # a Record obtained by lookupOne and STORED in an Any formula column carries the lookup's relation;
+  # when the key column is modified the lookup helper column is rebuilt and that relation dies, but
+  # the Any cell keeps its (equal) value, so `$a.v` is neither recomputed nor re-linked
+  ("basic", [[["AddTable", "T9", [_col("k", "Text"), _col("v", "Int")]],
+              ["AddTable", "U9", [_col("key", "Text"), _col("a", "Any", "T9.lookupOne(k=$key)"),
+                                  _col("b", "Any", "$a.v")]]],
+             [["BulkAddRecord", "T9", [None, None], {"k": ["x", "y"], "v": [1, 2]}],
+              ["BulkAddRecord", "U9", [None, None], {"key": ["x", "y"]}]],
+             [["ModifyColumn", "T9", "k", {"type": "Choice"}]],
+             [["UpdateRecord", "T9", 1, {"v": 20}]]],
+   "record-held-in-any-column-keeps-dead-lookup-relation"),
 ]
 
 
